@@ -116,6 +116,8 @@ def r12_1_sites(ctx):
     scenarios.append(("ties", [("int", v) for v in [5, 6, 5, 6, 7, 7, 8, 8, 9, 9, 300, 300, 9, 8]]))
     scenarios.append(("enum merges with number", [("int", "OptIn"), ("int", 1), ("int", "pay"), ("int", 1), ("int", "NoOp"), ("int", 0)]))
     scenarios.append(("templates", [("int", "TMPL_A")] * 2 + [("int", 7)] * 3 + [("int", "TMPL_B")]))
+    scenarios.append(("repeated template ranked below four more frequent constants", [("int", v) for v in [1, 1, 1, 2, 2, 2, 3, 3, 3, 400, 400, 400, "TMPL_A", "TMPL_A", 5, 5, "OptIn", "pay"]]))
+    scenarios.append(("repeated byte template ranked below four more frequent constants", [b for b in [BYTES[0], BYTES[15], BYTES[16], BYTES[17]] for _ in range(3)] + [BYTES[10], BYTES[10], BYTES[12], BYTES[12]]))
     scenarios.append(("same bytes, four spellings", [BYTES[0], BYTES[1], BYTES[2], BYTES[3], BYTES[4], BYTES[15], BYTES[15]]))
     scenarios.append(("non-ascii string vs hex", [BYTES[5], BYTES[6], BYTES[5], BYTES[7], BYTES[7]]))
     scenarios.append(("six repeated byte constants", [b for b in [BYTES[0], BYTES[15], BYTES[16], BYTES[17], BYTES[18], BYTES[19]] for _ in range(2)] + [BYTES[8], BYTES[9]]))
